@@ -25,8 +25,8 @@ REPO = os.environ.get('KAPTURE_REPO', '/repo')
 LEAN = os.path.join(VERIF, 'lean')
 WORK = os.path.join(VERIF, '.work')
 ALLOWED_AXIOMS = {'propext', 'Classical.choice', 'Quot.sound'}
-FORBIDDEN = re.compile(r'\bsorry\b|\badmit\b|^\s*axiom\s|native_decide|bv_decide|implemented_by|\bunsafe\s|maxHeartbeats\s+0\b'
-                       r'|\bpartial\s+def\b.*--\s*model', re.M)
+FORBIDDEN = re.compile(r'\bsorry\b|\badmit\b|^\s*axiom\s|native_decide|bv_decide|implemented_by|\bunsafe\s|maxHeartbeats\s+0\b',
+                       re.M)
 
 sys.path.insert(0, os.path.join(VERIF, 'gen'))
 sys.path.insert(0, REPO)   # the implementation under test is /repo's working tree
@@ -134,20 +134,32 @@ def theorem_names(prop_id):
     return names
 
 
-def forbidden_hits(modules_dirs=('Base', 'Gen', 'Model', 'Lemmas', 'Props', 'Drivers')):
-    hits = []
-    for d in modules_dirs:
-        root = os.path.join(LEAN, 'Kapture', d)
-        if not os.path.isdir(root):
+def import_closure(roots):
+    """ Kapture.* modules reachable from the given module names through `import` lines """
+    seen, todo = [], list(roots)
+    while todo:
+        m = todo.pop()
+        if m in seen:
             continue
-        for fn in sorted(os.listdir(root)):
-            if fn.endswith('.lean'):
-                text = strip_comments(open(os.path.join(root, fn), encoding='utf-8').read())
-                for m in FORBIDDEN.finditer(text):
-                    tok = m.group(0).strip()
-                    if d in ('Base', 'Drivers') and tok.startswith('partial'):
-                        continue
-                    hits.append(f'Kapture/{d}/{fn}: {tok}')
+        path = os.path.join(LEAN, *m.split('.')) + '.lean'
+        if not os.path.exists(path):
+            continue
+        seen.append(m)
+        for line in open(path, encoding='utf-8'):
+            mm = re.match(r'\s*import\s+(Kapture\.\S+)', line)
+            if mm:
+                todo.append(mm.group(1))
+    return sorted(seen)
+
+
+def forbidden_hits(prop_id):
+    """ forbidden escapes in every project file the property's theorems and driver depend on """
+    hits = []
+    for m in import_closure([f'Kapture.Props.{prop_id}', f'Kapture.Drivers.{prop_id}']):
+        path = os.path.join(LEAN, *m.split('.')) + '.lean'
+        text = strip_comments(open(path, encoding='utf-8').read())
+        for mt in FORBIDDEN.finditer(text):
+            hits.append(f'{m}: {mt.group(0).strip()}')
     return hits
 
 
@@ -295,7 +307,7 @@ def run_property(P, tier, seed, replay=None):
             else:
                 discharged += 1
                 axioms_used |= set(a)
-    hits = forbidden_hits()
+    hits = forbidden_hits(pid)
     if hits:
         tie_failures.append({'kind': 'forbidden-token', 'hits': hits})
     if tier == 'thorough' and proofs_ok:
